@@ -106,10 +106,18 @@ RuleNames == {"BeginDocument","EndDocument","Terminal","Version","TopLevel","Lis
 
 (* Rule.hasMethod of the generator: everything else is a generated          *)
 (* wrongType() panic                                                       *)
-HasMethod(r, m) ==
+HasMethodDef(r, m) ==
   LET t == RuleTable(r) IN
   /\ m \notin t.exc
   /\ (t.allowed \cap Assoc(m) # {} \/ m \in t.inc)
+
+Methods == {"bdoc","edoc","child","ver","pad","comment","null","key","nonkey","list","map",
+            "rtype","record","edge","node","end","marker","ref","array","stringlike",
+            "abegin","achunk","adata"}
+
+(* evaluated once by TLC (constant definition) *)
+MethodTable == [r \in RuleNames |-> {m \in Methods : HasMethodDef(r, m)}]
+HasMethod(r, m) == m \in MethodTable[r]
 
 --------------------------------------------------------------------------
 (* State                                                                   *)
@@ -119,7 +127,7 @@ NoCount == -1
 Entry(rule, dt, exp) == [rule |-> rule, dt |-> dt, cur |-> 0, exp |-> exp, keys |-> {}]
 
 NoArr == [at |-> "", more |-> FALSE, exp |-> 0, act |-> 0, total |-> 0,
-          built |-> <<>>, u8 |-> "s"]
+          built |-> <<>>, u8 |-> "s", rem |-> <<>>, gok |-> TRUE]
 
 (* lim = [depth, objs, abytes, idlen, refs]; abytes = 0 means unlimited    *)
 InitState(lim, dv) ==
@@ -244,13 +252,22 @@ KeyRules == {"MapKey", "RecordType"}
 
 LenOK(s, n) == ~(n > s.lim.abytes /\ s.lim.abytes > 0)
 
-ValidateFullArrayAnyType(s, at, count, bytes) ==
-  IF at \in {"string", "rid", "ctxt"}
+(* array types whose contents must be valid UTF-8.  The code leaves remote  *)
+(* references unchecked (deviation rref-utf8-unchecked).                   *)
+StrTypes(s) == {"string", "rid", "ctxt"} \cup
+               (IF Dev(s, "rref-utf8-unchecked") THEN {} ELSE {"rref"})
+NoteRref(s, at) == IF at = "rref" /\ Dev(s, "rref-utf8-unchecked")
+                   THEN UseDev(s, "rref-utf8-unchecked") ELSE s
+
+ValidateFullArrayAnyType(s0, at, count, bytes) ==
+  LET s == NoteRref(s0, at) IN
+  IF at \in StrTypes(s)
   THEN IF ~LenOK(s, Len(bytes)) THEN Fail(s, "limit") ELSE IF U8Valid(bytes) THEN s ELSE Fail(s, "array")
   ELSE IF Len(bytes) # ByteCount(at, count) THEN Fail(s, "array") ELSE IF LenOK(s, Len(bytes)) THEN s ELSE Fail(s, "limit")
 
-ValidateFullArrayStringlike(s, at, bytes) ==
-  IF at \in {"string", "rid", "ctxt"}
+ValidateFullArrayStringlike(s0, at, bytes) ==
+  LET s == NoteRref(s0, at) IN
+  IF at \in StrTypes(s)
   THEN IF ~LenOK(s, Len(bytes)) THEN Fail(s, "limit") ELSE IF U8Valid(bytes) THEN s ELSE Fail(s, "array")
   ELSE IF LenOK(s, Len(bytes)) THEN s ELSE Fail(s, "limit")
 
@@ -263,8 +280,9 @@ ArrayTypeOKFor(r, at) ==
 --------------------------------------------------------------------------
 (* Chunked arrays                                                          *)
 
-BeginArray(s, at) ==
-  LET rule == IF at \in {"string", "rid", "ctxt"} THEN "String" ELSE "Array"
+BeginArray(s0, at) ==
+  LET s    == NoteRref(s0, at)
+      rule == IF at \in StrTypes(s) THEN "String" ELSE "Array"
       s1   == StackRule(s, rule, at, NoCount)
   IN [s1 EXCEPT !.arr = [NoArr EXCEPT !.at = at]]
 
@@ -308,7 +326,16 @@ EndChunk(s) ==
   IF s.arr.more THEN ChangeRule(s, IF CurRule(s) = "StringChunk" THEN "String" ELSE "Array")
   ELSE EndContainerLike(s, TRUE)
 
-ArrayData(s, bytes) ==         \* ArrayChunkRule.OnArrayData / StringChunkRule.OnArrayData
+Min2(a, b) == IF a < b THEN a ELSE b
+
+(* ArrayChunkRule.OnArrayData / StringChunkRule.OnArrayData.                 *)
+(* String-like data goes through Context.StreamStringData: an incomplete    *)
+(* trailing character (by the length its lead byte announces) is carried    *)
+(* over in arr.rem and validated once complete; a chunk may not end with a  *)
+(* carry-over.  arr.u8 is a ghost: the reference DFA of Utf8.tla run over   *)
+(* the chunk's bytes, and arr.gok records that every verdict of this        *)
+(* streaming algorithm agrees with the reference (invariant GhostOK).       *)
+ArrayData(s, bytes) ==
   LET act == s.arr.act + Len(bytes) IN
   IF act > s.arr.exp THEN Fail(s, "array")
   ELSE
@@ -316,21 +343,28 @@ ArrayData(s, bytes) ==         \* ArrayChunkRule.OnArrayData / StringChunkRule.O
     THEN LET s1 == [s EXCEPT !.arr.act = act] IN
          IF act = s.arr.exp THEN EndChunk(s1) ELSE s1
     ELSE
-      IF Dev(s, "utf8-remainder-lost")
-      THEN (* Context.StreamStringData has a value receiver: the carry-over  *)
-           (* of an incomplete character is lost between data events         *)
-           LET nostart == bytes # <<>> /\ LastStart(bytes, Len(bytes)) = 0
-               kept    == DropIncompleteTail(bytes)
-               s0      == IF kept # bytes THEN UseDev(s, "utf8-remainder-lost") ELSE s
-           IN IF nostart \/ ~U8Valid(kept) THEN Fail(s0, "array")
-              ELSE LET s1 == [s0 EXCEPT !.arr.act = act, !.arr.built = @ \o kept]
-                   IN IF act = s.arr.exp THEN EndChunk(s1) ELSE s1
-      ELSE LET u == U8Run(s.arr.u8, bytes) IN
-           IF u = "bad" THEN Fail(s, "array")
-           ELSE LET s1 == [s EXCEPT !.arr.act = act, !.arr.built = @ \o bytes, !.arr.u8 = u] IN
-                IF act = s.arr.exp
-                THEN IF u # "s" THEN Fail(s1, "array") ELSE EndChunk(s1)
-                ELSE s1
+      LET rem     == s.arr.rem
+          req     == IF rem = <<>> THEN 0 ELSE LeadLen(rem[1])
+          take    == IF rem = <<>> THEN 0 ELSE Min2(req - Len(rem), Len(bytes))
+          rem1    == rem \o SubSeq(bytes, 1, take)
+          rest    == SubSeq(bytes, take + 1, Len(bytes))
+          waiting == rem # <<>> /\ Len(rem1) < req
+          first   == IF rem # <<>> /\ ~waiting THEN rem1 ELSE <<>>
+          ls      == LastStart(rest, Len(rest))
+          nostart == rest # <<>> /\ ls = 0          \* slice bounds panic in the code
+          whole   == rest = <<>> \/ (ls > 0 /\ ls + LeadLen(rest[ls]) - 1 = Len(rest))
+          next    == IF waiting \/ whole THEN rest ELSE SubSeq(rest, 1, ls - 1)
+          rem2    == IF waiting THEN rem1 ELSE IF whole \/ nostart THEN <<>> ELSE SubSeq(rest, ls, Len(rest))
+          bad     == ~waiting /\ (nostart \/ ~U8Valid(first) \/ ~U8Valid(next))
+          u       == U8Run(s.arr.u8, bytes)
+          atEnd   == act = s.arr.exp
+          reject  == bad \/ (atEnd /\ rem2 # <<>>)
+          refRej  == u = "bad" \/ (atEnd /\ u # "s")
+          gok     == (reject => refRej) /\ (atEnd /\ ~reject => u = "s")
+          s1      == [s EXCEPT !.arr.act = act, !.arr.built = @ \o first \o next, !.arr.rem = rem2,
+                               !.arr.u8 = IF atEnd THEN "s" ELSE u, !.arr.gok = @ /\ gok]
+      IN IF reject THEN Fail(s1, "array")
+         ELSE IF atEnd THEN EndChunk(s1) ELSE s1
 
 --------------------------------------------------------------------------
 (* Containers                                                              *)
@@ -435,7 +469,7 @@ Do(r, m, s, e) ==
 
 E0 == [m |-> "", dt |-> "", k |-> "", form |-> "", sp |-> "", id |-> "", idok |-> TRUE,
        idlen |-> 1, at |-> "", count |-> 0, bytes |-> <<>>, n |-> 0, more |-> FALSE,
-       v |-> 0]
+       v |-> 0, mt |-> "", mtok |-> TRUE, ct |-> 0, multi |-> FALSE]
 
 KeyMethods == {"OnBoolean","OnTrue","OnFalse","OnPositiveInt","OnNegativeInt","OnInt",
                "OnBigInt","OnUID","OnTime"}
@@ -447,6 +481,13 @@ Step(s, e) ==
   LET m == e.m
       real(mm)   == Then(NotifyNewObject(s, TRUE), LAMBDA t : Do(CurRule(t), mm, t, e))
       viaArrayAPI == e.at \notin {"cbin", "ctxt", "media"}
+      (* a media type must be valid UTF-8; the code hands it on unchecked     *)
+      MediaTypeThen(t, ee, mm) ==
+        IF ee.mtok THEN real(mm)
+        ELSE IF Dev(t, "mediatype-utf8-unchecked")
+             THEN Then(NotifyNewObject(UseDev(t, "mediatype-utf8-unchecked"), TRUE),
+                       LAMBDA u : Do(CurRule(u), mm, u, ee))
+             ELSE Fail(t, "array")
   IN
   CASE m = "OnBeginDocument" -> Do(CurRule(s), "bdoc", s, e)
     [] m = "OnEndDocument"   -> Do(CurRule(s), "edoc", s, e)
@@ -472,11 +513,11 @@ Step(s, e) ==
                                      LAMBDA t : Do(CurRule(t), "ref", t, e))
     [] m = "OnArray"         -> IF viaArrayAPI THEN real("array") ELSE Fail(s, "api")
     [] m = "OnStringlikeArray" -> IF viaArrayAPI THEN real("stringlike") ELSE Fail(s, "api")
-    [] m = "OnMedia"         -> real("array")        \* e.at = "media", count = Len(bytes)
+    [] m = "OnMedia"         -> MediaTypeThen(s, e, "array")   \* e.at = "media", count = Len(bytes)
     [] m = "OnCustomBinary"  -> real("array")        \* e.at = "cbin"
     [] m = "OnCustomText"    -> real("stringlike")   \* e.at = "ctxt"
     [] m = "OnArrayBegin"    -> IF viaArrayAPI THEN real("abegin") ELSE Fail(s, "api")
-    [] m = "OnMediaBegin"    -> real("abegin")       \* e.at = "media"
+    [] m = "OnMediaBegin"    -> MediaTypeThen(s, e, "abegin")  \* e.at = "media"
     [] m = "OnCustomBegin"   -> IF e.at \in {"cbin", "ctxt"} THEN real("abegin") ELSE Fail(s, "api")
     [] m = "OnArrayChunk"    -> Do(CurRule(s), "achunk", s, e)
     [] m = "OnArrayData"     -> Do(CurRule(s), "adata", s, e)
@@ -484,7 +525,7 @@ Step(s, e) ==
 
 (* What the next receiver is handed when the event is accepted (C15).      *)
 Forward(e) ==
-  IF e.sp = "nil" THEN << [E0 EXCEPT !.m = "OnNull"] >>
+  IF e.sp = "nil" THEN << [E0 EXCEPT !.m = "OnNull", !.dt = "null"] >>
   ELSE IF e.sp \in {"qnan", "snan"} /\ e.m \in FloatMethods
        THEN << [E0 EXCEPT !.m = "OnNan", !.dt = "nan", !.sp = e.sp] >>
   ELSE << e >>
@@ -501,4 +542,5 @@ StateOK(s) ==
        /\ s.refs <= s.lim.refs
        /\ s.refs = Cardinality(s.marked)
        /\ \A p \in s.fwd : ~IsMarked(s, p[1])
+  /\ s.arr.gok            \* C11: streaming verdict = reference verdict
 =============================================================================
